@@ -131,6 +131,19 @@ def frame_job(c, which):
             try: dobj.sample(); dobj.sample(2)
             except NotImplementedError: pass
             unchanged(f'derived[{k}].sample')
+            # a draw with the caller's own generator (by keyword and by position) leaves nothing behind either - in particular no reference to that generator
+            if not c.sym:
+                try: dobj.sample(rng=np.random.RandomState(3)); dobj.sample(2, np.random.RandomState(4))
+                except NotImplementedError: pass
+                unchanged(f'derived[{k}].sample_with_a_given_generator')
+                ga = np.random.RandomState(5); st0 = ga.get_state()[1].copy()
+                try:
+                    dobj.sample(rng=ga); st1 = ga.get_state()[1].copy()
+                    np.random.seed(11); v1 = np.asarray(dobj.sample(), dtype=float)
+                    c.holds(f'derived[{k}]:a_later_draw_without_generator_does_not_advance_the_generator_given_earlier', bool(np.array_equal(st1, ga.get_state()[1])))
+                    np.random.seed(11); fresh = np.asarray(obj(**cond).sample() if cond is not None else dobj.sample(), dtype=float)
+                    c.eq(f'derived[{k}]:a_later_seeded_draw_is_the_draw_of_an_untouched_copy', v1, fresh, tol=0)
+                except NotImplementedError: pass
         if is_dist and xs is not None and which not in ('RegularizedGaussian', 'Posterior'):
             try: dobj.to_likelihood(xs) if dobj.is_cond else dobj(xs)
             except Exception: pass
